@@ -438,6 +438,34 @@ pub fn run(prop: &'static str, tier: &str) -> i32 {
         all.merge(Acc::merge_all(accs));
     }
 
+    // ---- a duplicate is reported as a duplicate whatever key the build is given (also one the signer refuses)
+    if prop == "C17" {
+        use crate::adapter::{BEvent, BOp, ClaimSpec, ErrClass, Layer, Out};
+        let mut acc = Acc::default();
+        for p in Proto::PUBLIC {
+            let key = crate::domains::key_pool(p)[0].clone();
+            crate::adapter::freeze_default_clock();
+            for dup_key in ["sub", "role", "exp"] {
+                let v = |i: usize| if dup_key == "exp" { json!("2999-01-01T00:00:00Z") } else { json!(format!("v{}", i)) };
+                let ops = vec![BOp::Claim(ClaimSpec::auto(dup_key, v(0))), BOp::Claim(ClaimSpec::auto(dup_key, v(1))), BOp::BuildBadKey, BOp::Build, BOp::BuildBadKey, BOp::Build];
+                let (ev, _) = crate::adapter::with_rng_script(vec![], || crate::adapter::build_history(p, Layer::Prelude, &key.sk, &ops));
+                let builds: Vec<&BEvent> = ev.iter().filter(|e| matches!(e, BEvent::Built(_))).collect();
+                acc.executions += builds.len() as u64;
+                acc.choice_points += 1;
+                let all_dup = builds.len() == 4 && builds.iter().all(|b| matches!(b, BEvent::Built(Out::Err(ErrClass::Dup(k))) if k == dup_key));
+                if all_dup {
+                    acc.bump("duplicate-before-key:conforms");
+                } else {
+                    acc.violate(
+                        format!("C17|{}|duplicate-with-unusable-key", p.name()),
+                        format!("{:?} supplied twice, then build with key material the signer refuses, build with the good key, and both again: {:?} - every build must return the duplicate-claim error naming {:?}", dup_key, builds.iter().map(|b| format!("{:?}", b).chars().take(60).collect::<String>()).collect::<Vec<_>>(), dup_key),
+                        json!({"near_miss": ["dup-bad-key", p.name(), dup_key]}),
+                    );
+                }
+            }
+        }
+        all.merge(acc);
+    }
     // ---- the error names the duplicated key - the key itself, whatever its length or content
     if prop == "C17" {
         use crate::adapter::{BEvent, BOp, ClaimSpec, ErrClass, Layer, Out};
